@@ -336,6 +336,10 @@ impl RemoteStateActor {
             }
         }
 
+        // Schedule point: on a multi-threaded runtime senders can enqueue messages between the
+        // idle decision above and the close below.
+        #[cfg(iroh_verif)]
+        iroh_base::verif::apoint("remote_actor.before_inbox_close").await;
         inbox.close();
         // There might be a race between checking `inbox.is_empty()` and `inbox.close()`,
         // so we pull out all messages that are left over.
